@@ -300,6 +300,31 @@ theorem C04_linux_pidExists_iff (k : Kernel) (hwf : k.WF) (n : Nat) (hb : n ≤ 
   | true => rfl
   | false => rcases h3 rfl with h | h <;> exact absurd hl h
 
+/-- **C04_linux_pidExists_denied.** When the status file cannot be opened — whatever the errno
+    (EACCES included), whether `n` is a PID or a thread id that passed the probe — the answer comes
+    from the listing: a bool, True only for an id that is a listed PID at that moment, so never
+    for a thread id. -/
+theorem C04_linux_pidExists_denied (k : Kernel) (n : Nat) (hb : n ≤ pidTMax) (mid : List KEv) :
+    ∃ b, (linuxPidExistsDenied k n mid).2 = .bool b
+      ∧ (b = true → n ∈ (k.applyAll mid).listdir)
+      ∧ (b = false → n ∉ k.listdir ∨ n ∉ (k.applyAll mid).listdir) := by
+  have hpos : ∃ e, posixPidExists k n = .bool e ∧ (e = false → n ∉ k.listdir) := by
+    by_cases h0 : n = 0
+    · exact ⟨true, (C04_posix_pidExists_branches k n).1 h0, by simp⟩
+    · refine ⟨_, (C04_posix_pidExists_branches k n).2.2 (by omega) hb, ?_⟩
+      intro he hl
+      have := findProc_isSome_iff.mpr hl
+      simp [this] at he
+  obtain ⟨e, he, hfalse⟩ := hpos
+  unfold linuxPidExistsDenied
+  rw [he]
+  cases e with
+  | false => exact ⟨false, rfl, by simp, fun _ => Or.inl (hfalse rfl)⟩
+  | true =>
+    refine ⟨(k.applyAll mid).listdir.contains n, rfl, ?_, ?_⟩
+    · intro h; simpa using h
+    · intro h; right; simpa using h
+
 /-- non-vacuity: a thread id passes the POSIX probe and is refused by the Tgid check; a process
     that exits between the probe and the read (its id becoming a thread id of another process) is
     answered False, one that appears in the window (thread id turned PID) True -/
